@@ -20,7 +20,10 @@ type V1 struct {
 	memory  *v1controller
 	pids    *v1controller
 
+	// all lists the controller groups created by this handle (removed by Destroy)
 	all []*v1controller
+	// ctrls lists every controller group of this handle, created or already existing
+	ctrls []*v1controller
 
 	existing bool
 }
@@ -51,7 +54,7 @@ func (c *V1) String() string {
 
 // AddProc writes cgroup.procs to all controller
 func (c *V1) AddProc(pids ...int) error {
-	for _, s := range c.all {
+	for _, s := range c.ctrls {
 		if err := s.AddProc(pids...); err != nil {
 			return err
 		}
@@ -61,10 +64,10 @@ func (c *V1) AddProc(pids ...int) error {
 
 // Processes lists all existing process pid from the cgroup
 func (c *V1) Processes() ([]int, error) {
-	if len(c.all) == 0 {
+	if len(c.ctrls) == 0 {
 		return nil, os.ErrInvalid
 	}
-	return ReadProcesses(filepath.Join(c.all[0].path, cgroupProcs))
+	return ReadProcesses(filepath.Join(c.ctrls[0].path, cgroupProcs))
 }
 
 // New creates a sub-cgroup based on the existing one
@@ -94,6 +97,7 @@ func (c *V1) New(name string) (cg Cgroup, err error) {
 		}
 		p := filepath.Join(v.now.path, name)
 		*v.new = &v1controller{path: p}
+		v1.ctrls = append(v1.ctrls, *v.new)
 		err = EnsureDirExists(p)
 		if os.IsExist(err) {
 			err = nil
